@@ -292,11 +292,9 @@ def station_search(ctx: Ctx):
                     why = f"is_valid={skw.get('is_valid')}, vehicle={flow.dump(vid)}"
                 else:
                     why = f"station comes from {flow.dump(search)[:100]}"
+            # every path that builds the instruction is judged (a memo / cache hit is a path of its own); identical verdicts collapse
             ctx.check(ok, "D2", "GD.station-search", "DispatchStationInstruction pairs the vehicle with the result of a search filtered by valid_station_for_vehicle(that vehicle)",
                       fn, ev.raw, why_bad=why, construct="instruct_vehicles_to_dispatch_to_station:search-filter")
-            break
-        if seen:
-            break
     ctx.require(seen, "instruct_vehicles_to_dispatch_to_station no longer builds DispatchStationInstruction")
 
 
